@@ -12,6 +12,12 @@ sextet; the canonical text has `k = 0`.  `Lines64 s t` — `s` is `t` in lines o
 bytes) not; `Unfold64 s t` — what `binary_base64_newlines` makes of a value: `t = s` unless byte 64 of `s` is a newline, then `Lines64 s t`.
 
 A value is the pair of its octets (`data`) and its canonical text (`canon`).
+
+The theorems are about `storeWith r` / `unlybWith c` for BOTH values of the two switches the translator reads off the source
+(`Generated.binCanonReencoded`: the canonical value is the encoding of the octets — the repair of F418 — instead of the text that was read;
+`Generated.binLybLengthChecked`: the `length` restriction is applied to LYB input — the repair of F420); the model that is compared with the
+implementation is `store = storeWith Generated.binCanonReencoded`, `unlyb = unlybWith Generated.binLybLengthChecked`.  The `_fails` theorems are
+stated for the pinned variant (`false`), the `_repaired` ones for the repaired variant (`true`).
 -/
 namespace LyModel.Props.C03Bin
 open LyModel LyModel.Val LyModel.Val.Bin
@@ -48,59 +54,79 @@ example : IsB64 (b "QQ==") [0x41] 0 ∧ IsB64 (b "QR==") [0x41] 1 := by
 
 /-- `bin_accept_iff`: a lexical value `s` is stored as the value `v` ⇔ the hints allow a string-encoded value, AND — after the only white
     space the plug-in removes: the newlines of a value laid out in lines of exactly 64 bytes, looked for only when byte 64 is a newline —
-    the text `v.canon` is base64 of RFC 4648 §4 for the octets `v.data`: alphabet characters, length a multiple of four, `=` / `==` only as
+    the text `t` is base64 of RFC 4648 §4 for the octets `v.data`: alphabet characters, length a multiple of four, `=` / `==` only as
     the padding of the last group; the surplus bits `k` of the last sextet are NOT required to be zero; AND the number of OCTETS is inside
-    the `length` parts.  The text that was read, not its re-encoding, becomes the canonical value. -/
-theorem bin_accept_iff (len : List (Int × Int)) (hints : Nat) (s : Bytes) (v : BVal) :
-    store len hints s = .ok v ↔
-      (checkHints hints "binary").isSome = true ∧ Unfold64 s v.canon ∧ (∃ k, IsB64 v.canon v.data k) ∧
+    the `length` parts.  The canonical value is the text `t` that was read (pinned), the encoding of the octets (repaired). -/
+theorem bin_accept_iff (r : Bool) (len : List (Int × Int)) (hints : Nat) (s : Bytes) (v : BVal) :
+    storeWith r len hints s = .ok v ↔
+      (checkHints hints "binary").isSome = true ∧ ∃ t, Unfold64 s t ∧ (∃ k, IsB64 t v.data k) ∧ v.canon = (if r then encode v.data else t) ∧
         validateRange (rangeIsUnsigned "binary") len (v.data.length : Nat) = true := by
-  rw [store_ok_iff, stripNl_ok_iff]
+  rw [storeWith_ok_iff]
   constructor
-  · rintro ⟨h, hs, hv, hd, hr⟩
+  · rintro ⟨h, t, hs, hv, hd, hc, hr⟩
     obtain ⟨o, k, hb⟩ := (validate_iff_isB64 _).mp hv
     have : o = v.data := by rw [hd, decode_of_isB64 hb]
-    exact ⟨h, hs, ⟨k, this ▸ hb⟩, hr⟩
-  · rintro ⟨h, hs, ⟨k, hb⟩, hr⟩
-    exact ⟨h, hs, validate_of_isB64 hb, (decode_of_isB64 hb).symm, hr⟩
+    exact ⟨h, t, (stripNl_ok_iff s t).mp hs, ⟨k, this ▸ hb⟩, hc, hr⟩
+  · rintro ⟨h, t, hs, ⟨k, hb⟩, hc, hr⟩
+    exact ⟨h, t, (stripNl_ok_iff s t).mpr hs, validate_of_isB64 hb, (decode_of_isB64 hb).symm, hc, hr⟩
 
-example : store [] H (b "QUJD") = .ok ⟨b "ABC", b "QUJD"⟩ ∧ store [] H [] = .ok ⟨[], []⟩ ∧ store [(2, 4)] H (b "QUI=") = .ok ⟨b "AB", b "QUI="⟩ ∧
-    store [(2, 4)] H (b "QQ==") = .error .Length ∧ store [] H (b "QUJ") = .error .Len ∧ store [] H (b "QU J") = .error .Char ∧
-    store [] H (b "Q===") = .error .Char ∧ store [] H (b "QUJD\n") = .error .Char ∧ store [] H (b "QU-_") = .error .Char ∧ store [] 2 (b "QUJD") = .error .Hint := by
+example : storeWith false [] H (b "QUJD") = .ok ⟨b "ABC", b "QUJD"⟩ ∧ storeWith true [] H [] = .ok ⟨[], []⟩ ∧ storeWith false [(2, 4)] H (b "QUI=") = .ok ⟨b "AB", b "QUI="⟩ ∧
+    storeWith false [(2, 4)] H (b "QQ==") = .error .Length ∧ storeWith true [] H (b "QUJ") = .error .Len ∧ storeWith false [] H (b "QU J") = .error .Char ∧
+    storeWith false [] H (b "Q===") = .error .Char ∧ storeWith true [] H (b "QUJD\n") = .error .Char ∧ storeWith false [] H (b "QU-_") = .error .Char ∧
+    storeWith false [] 2 (b "QUJD") = .error .Hint := by
   decide +kernel
 -- 48 octets = 64 characters: a newline after them is removed, also when a second line follows; a second line without the first newline is refused
-example : store [] H (encode (List.replicate 48 0x41) ++ [NL]) = .ok ⟨List.replicate 48 0x41, encode (List.replicate 48 0x41)⟩ ∧
-    store [] H (encode (List.replicate 48 0x41) ++ NL :: b "QUI=") = .ok ⟨List.replicate 48 0x41 ++ b "AB", encode (List.replicate 48 0x41) ++ b "QUI="⟩ ∧
-    store [] H (encode (List.replicate 48 0x41) ++ NL :: encode (List.replicate 48 0x41) ++ b "QUI=") = .error .Newline ∧
-    store [] H (b "QUI=\n") = .error .Char := by decide +kernel
+example : storeWith false [] H (encode (List.replicate 48 0x41) ++ [NL]) = .ok ⟨List.replicate 48 0x41, encode (List.replicate 48 0x41)⟩ ∧
+    storeWith false [] H (encode (List.replicate 48 0x41) ++ NL :: b "QUI=") = .ok ⟨List.replicate 48 0x41 ++ b "AB", encode (List.replicate 48 0x41) ++ b "QUI="⟩ ∧
+    storeWith true [] H (encode (List.replicate 48 0x41) ++ NL :: encode (List.replicate 48 0x41) ++ b "QUI=") = .error .Newline ∧
+    storeWith true [] H (b "QUI=\n") = .error .Char := by decide +kernel
 -- the theorem used left to right
-example : ∃ k, IsB64 (b "QUJD") (b "ABC") k := ((bin_accept_iff [] H (b "QUJD") ⟨b "ABC", b "QUJD"⟩).mp (by decide +kernel)).2.2.1
+example : ∃ t k, IsB64 t (b "ABC") k := by
+  obtain ⟨_, t, _, ⟨k, h⟩, _⟩ := (bin_accept_iff false [] H (b "QUJD") ⟨b "ABC", b "QUJD"⟩).mp (by decide +kernel)
+  exact ⟨t, k, h⟩
 
-/-- Full strength (RFC 4648 §3.5: "pad bits MUST be set to zero by conforming encoders"; a decoder "MAY" reject other values): a stored
-    text has zero surplus bits.  False — `QR==` (sextets 16, 17: the octet 0x41 and the surplus bits 0001) is accepted. -/
-theorem bin_accept_zero_pad_bits_fails :
-    ¬ ∀ (len : List (Int × Int)) (hints : Nat) (s : Bytes) (v : BVal), store len hints s = .ok v → IsB64 v.canon v.data 0 := by
+/-- Full strength (RFC 4648 §3.5: "pad bits MUST be set to zero by conforming encoders"; a decoder "MAY" reject other values): the text of a
+    stored value has zero surplus bits.  False, with and without the repair of the canonical value — `QR==` (sextets 16, 17: the octet 0x41 and
+    the surplus bits 0001) is accepted. -/
+theorem bin_accept_zero_pad_bits_fails (r : Bool) :
+    ¬ ∀ (len : List (Int × Int)) (hints : Nat) (s : Bytes) (v : BVal), storeWith r len hints s = .ok v → ∃ t, Unfold64 s t ∧ IsB64 t v.data 0 := by
   intro h
-  have h1 := h [] H (b "QR==") ⟨[0x41], b "QR=="⟩ (by decide +kernel)
-  have := eq_encode_of_isB64_zero h1 rfl
-  exact absurd this (by decide +kernel)
+  have hs : storeWith r [] H (b "QR==") = .ok ⟨[0x41], if r then b "QQ==" else b "QR=="⟩ := by cases r <;> decide +kernel
+  obtain ⟨t, hu, hz⟩ := h [] H (b "QR==") _ hs
+  have ht := unfold64_short (by decide +kernel) hu
+  subst ht
+  have e : b "QR==" = encode [0x41] := eq_encode_of_isB64_zero hz rfl
+  exact absurd e (by decide +kernel)
 
 /-! ## canonical form -/
 
-/-- `bin_canonical`, full strength: the canonical value of a stored value is the base64 encoding of its octets.  False — the plug-in keeps
-    the text it read: `QR==` is stored with the canonical value `QR==`, the encoding of its octet is `QQ==`. -/
+/-- `bin_canonical`, full strength: the canonical value of a stored value is the base64 encoding of its octets.  False in the pinned tree — the
+    plug-in keeps the text it read: `QR==` is stored with the canonical value `QR==`, the encoding of its octet is `QQ==` (F418). -/
 theorem bin_canonical_fails :
-    ¬ ∀ (len : List (Int × Int)) (hints : Nat) (s : Bytes) (v : BVal), store len hints s = .ok v → canon v = encode v.data := by
+    ¬ ∀ (len : List (Int × Int)) (hints : Nat) (s : Bytes) (v : BVal), storeWith false len hints s = .ok v → canon v = encode v.data := by
   intro h
   exact absurd (h [] H (b "QR==") ⟨[0x41], b "QR=="⟩ (by decide +kernel)) (by decide +kernel)
 
-/-- …true exactly for the values whose text has zero surplus bits, and for every value stored from LYB (whose canonical value is
-    generated by `binary_base64_encode`); in every case the canonical value has no line break and decodes to the octets. -/
-theorem bin_canonical_partial (len : List (Int × Int)) (hints : Nat) (s : Bytes) (v : BVal) (h : store len hints s = .ok v) :
+/-- `bin_canonical_repaired`: with the repair it holds for every stored value. -/
+theorem bin_canonical_repaired (len : List (Int × Int)) (hints : Nat) (s : Bytes) (v : BVal) (h : storeWith true len hints s = .ok v) :
+    canon v = encode v.data := by
+  obtain ⟨_, t, _, _, _, hc, _⟩ := (storeWith_ok_iff true len hints s v).mp h
+  exact hc
+
+example : storeWith true [] H (b "QR==") = .ok ⟨[0x41], b "QQ=="⟩ := by decide +kernel
+
+/-- …in both variants: it holds exactly for the values whose canonical text has zero surplus bits, and for every value stored from LYB (whose
+    canonical value is generated by `binary_base64_encode`); in every case the canonical value has no line break and decodes to the octets. -/
+theorem bin_canonical_partial (r : Bool) (len : List (Int × Int)) (hints : Nat) (s : Bytes) (v : BVal) (h : storeWith r len hints s = .ok v) :
     (canon v = encode v.data ↔ IsB64 v.canon v.data 0) ∧ decode (canon v) = v.data ∧ (∀ c ∈ canon v, c ≠ NL) ∧
-      ∀ (octets : Bytes) (w : BVal), unlyb len octets = .ok w → canon w = encode w.data := by
-  obtain ⟨_, _, ⟨k, hb⟩, _⟩ := (bin_accept_iff len hints s v).mp h
-  refine ⟨⟨fun e => ?_, fun z => eq_encode_of_isB64_zero z rfl⟩, decode_of_isB64 hb, fun c hc e => ?_, fun o w hw => ?_⟩
+      ∀ (c : Bool) (octets : Bytes) (w : BVal), unlybWith c len octets = .ok w → canon w = encode w.data := by
+  obtain ⟨_, t, _, ⟨k, hb0⟩, hc, _⟩ := (bin_accept_iff r len hints s v).mp h
+  have hb : ∃ k, IsB64 v.canon v.data k := by
+    cases r
+    · rw [hc]; exact ⟨k, hb0⟩
+    · rw [hc]; exact ⟨0, encode_isB64 v.data⟩
+  obtain ⟨k', hb⟩ := hb
+  refine ⟨⟨fun e => ?_, fun z => eq_encode_of_isB64_zero z rfl⟩, decode_of_isB64 hb, fun c hc e => ?_, fun c o w hw => ?_⟩
   · have := encode_isB64 v.data
     unfold Bin.canon at e
     rw [← e] at this; exact this
@@ -108,48 +134,58 @@ theorem bin_canonical_partial (len : List (Int × Int)) (hints : Nat) (s : Bytes
     rcases isB64_chars hb _ hc with h1 | h1
     · rw [nl_not_alpha] at h1; cases h1
     · exact absurd h1 (by decide)
-  · unfold Bin.unlyb at hw
-    cases hw; rfl
+  · obtain ⟨rfl, _⟩ := (unlybWith_ok_iff c len o w).mp hw
+    rfl
 
-example : store [] H (b "QUI=") = .ok ⟨b "AB", b "QUI="⟩ ∧ canon ⟨b "AB", b "QUI="⟩ = encode (b "AB") ∧
-    unlyb [] (b "AB") = .ok ⟨b "AB", b "QUI="⟩ := by decide +kernel
+example : storeWith false [] H (b "QUI=") = .ok ⟨b "AB", b "QUI="⟩ ∧ canon ⟨b "AB", b "QUI="⟩ = encode (b "AB") ∧
+    unlybWith false [] (b "AB") = .ok ⟨b "AB", b "QUI="⟩ := by decide +kernel
 
 /-- `bin_canon_idempotent`: the canonical value of a stored value is stored as the same value (same octets, same canonical value), and so
     is the base64 encoding of its octets — with that encoding as its canonical value. -/
-theorem bin_canon_idempotent (len : List (Int × Int)) (hints : Nat) (s : Bytes) (v : BVal) (h : store len hints s = .ok v) :
-    store len hints (canon v) = .ok v ∧ store len hints (encode v.data) = .ok ⟨v.data, encode v.data⟩ := by
-  obtain ⟨hh, hs, hv, hd, hr⟩ := (store_ok_iff len hints s v).mp h
-  constructor
-  · exact (store_ok_iff len hints v.canon v).mpr ⟨hh, stripNl_of_validate hv, hv, hd, hr⟩
-  · have he := validate_of_isB64 (encode_isB64 v.data)
-    exact (store_ok_iff len hints (encode v.data) ⟨v.data, encode v.data⟩).mpr ⟨hh, stripNl_of_validate he, he, (decode_encode v.data).symm, hr⟩
+theorem bin_canon_idempotent (r : Bool) (len : List (Int × Int)) (hints : Nat) (s : Bytes) (v : BVal) (h : storeWith r len hints s = .ok v) :
+    storeWith r len hints (canon v) = .ok v ∧ storeWith r len hints (encode v.data) = .ok ⟨v.data, encode v.data⟩ := by
+  obtain ⟨hh, t, hs, hv, hd, hc, hr⟩ := (storeWith_ok_iff r len hints s v).mp h
+  have he := validate_of_isB64 (encode_isB64 v.data)
+  have h2 : storeWith r len hints (encode v.data) = .ok ⟨v.data, encode v.data⟩ :=
+    (storeWith_ok_iff r len hints (encode v.data) ⟨v.data, encode v.data⟩).mpr
+      ⟨hh, encode v.data, stripNl_of_validate he, he, (decode_encode v.data).symm, by cases r <;> rfl, hr⟩
+  refine ⟨?_, h2⟩
+  cases r
+  · have hc' : v.canon = t := hc
+    unfold Bin.canon
+    rw [hc']
+    exact (storeWith_ok_iff false len hints t v).mpr ⟨hh, t, stripNl_of_validate hv, hv, hd, hc, hr⟩
+  · have hc' : v.canon = encode v.data := hc
+    unfold Bin.canon
+    rw [hc', h2]
+    cases v with
+    | mk d c => simp only at hc'; rw [hc']
 
-example : store [] H (canon ⟨[0x41], b "QR=="⟩) = .ok ⟨[0x41], b "QR=="⟩ ∧ store [] H (encode [0x41]) = .ok ⟨[0x41], b "QQ=="⟩ := by decide +kernel
+example : storeWith false [] H (canon ⟨[0x41], b "QR=="⟩) = .ok ⟨[0x41], b "QR=="⟩ ∧ storeWith false [] H (encode [0x41]) = .ok ⟨[0x41], b "QQ=="⟩ := by decide +kernel
 
 /-! ## equality -/
 
-/-- `bin_eq_iff_canon_eq`, full strength: two stored values are equal (compare callback) ⇔ their canonical values are equal.  False — `QQ==`
-    and `QR==` are the same octet (compare callback: equal, sort callback: 0) with the canonical values `QQ==` and `QR==`;
-    `lyd_compare_single`, which compares the texts, calls the two nodes different. -/
+/-- `bin_eq_iff_canon_eq`, full strength: two stored values are equal (compare callback) ⇔ their canonical values are equal.  False in the
+    pinned tree — `QQ==` and `QR==` are the same octet (compare callback: equal, sort callback: 0) with the canonical values `QQ==` and `QR==`;
+    `lyd_compare_single`, which compares the texts, calls the two nodes different (F418). -/
 theorem bin_eq_iff_canon_eq_fails :
-    ¬ ∀ (len : List (Int × Int)) (h1 h2 : Nat) (s1 s2 : Bytes) (x y : BVal), store len h1 s1 = .ok x → store len h2 s2 = .ok y →
+    ¬ ∀ (len : List (Int × Int)) (h1 h2 : Nat) (s1 s2 : Bytes) (x y : BVal), storeWith false len h1 s1 = .ok x → storeWith false len h2 s2 = .ok y →
       (cmpEq x y = true ↔ canon x = canon y) := by
   intro h
   have := h [] H H (b "QQ==") (b "QR==") ⟨[0x41], b "QQ=="⟩ ⟨[0x41], b "QR=="⟩ (by decide +kernel) (by decide +kernel)
   exact absurd (this.mp (by decide +kernel)) (by decide +kernel)
 
-/-- …true parts: the compare callback is equality of the OCTETS; equal canonical values are equal values; and for two values with zero
-    surplus bits (e.g. every value a conforming encoder wrote, with or without the 64-column line breaks) equality is equality of the
-    canonical values. -/
-theorem bin_eq_iff_canon_eq_partial (len : List (Int × Int)) (h1 h2 : Nat) (s1 s2 : Bytes) (x y : BVal) (hx : store len h1 s1 = .ok x)
-    (hy : store len h2 s2 = .ok y) :
+/-- …true parts, in both variants: the compare callback is equality of the OCTETS; equal canonical values are equal values; and for two
+    values whose canonical text has zero surplus bits (e.g. every value a conforming encoder wrote, with or without the 64-column line breaks)
+    equality is equality of the canonical values. -/
+theorem bin_eq_iff_canon_eq_partial (r : Bool) (len : List (Int × Int)) (h1 h2 : Nat) (s1 s2 : Bytes) (x y : BVal)
+    (hx : storeWith r len h1 s1 = .ok x) (hy : storeWith r len h2 s2 = .ok y) :
     (cmpEq x y = true ↔ x.data = y.data) ∧ (canon x = canon y → cmpEq x y = true) ∧
       (IsB64 x.canon x.data 0 → IsB64 y.canon y.data 0 → (cmpEq x y = true ↔ canon x = canon y)) := by
-  have dx := ((store_ok_iff len h1 s1 x).mp hx).2.2.2.1
-  have dy := ((store_ok_iff len h2 s2 y).mp hy).2.2.2.1
+  have dx := (bin_canonical_partial r len h1 s1 x hx).2.1
+  have dy := (bin_canonical_partial r len h2 s2 y hy).2.1
   refine ⟨cmpEq_iff x y, fun e => (cmpEq_iff x y).mpr ?_, fun zx zy => ?_⟩
-  · unfold Bin.canon at e
-    rw [dx, dy, e]
+  · rw [← dx, ← dy, e]
   · rw [cmpEq_iff]
     unfold Bin.canon
     rw [eq_encode_of_isB64_zero zx rfl, eq_encode_of_isB64_zero zy rfl]
@@ -157,9 +193,17 @@ theorem bin_eq_iff_canon_eq_partial (len : List (Int × Int)) (h1 h2 : Nat) (s1 
     · intro e; rw [e]
     · intro e; rw [← decode_encode x.data, e, decode_encode]
 
-example : store [] H (b "QQ==") = .ok ⟨[0x41], b "QQ=="⟩ ∧ store [] H (b "QR==") = .ok ⟨[0x41], b "QR=="⟩ ∧
+/-- `bin_eq_iff_canon_eq_repaired`: with the repair, two stored values are equal ⇔ their canonical values are equal. -/
+theorem bin_eq_iff_canon_eq_repaired (len : List (Int × Int)) (h1 h2 : Nat) (s1 s2 : Bytes) (x y : BVal)
+    (hx : storeWith true len h1 s1 = .ok x) (hy : storeWith true len h2 s2 = .ok y) : cmpEq x y = true ↔ canon x = canon y := by
+  have cx := bin_canonical_repaired len h1 s1 x hx
+  have cy := bin_canonical_repaired len h2 s2 y hy
+  exact (bin_eq_iff_canon_eq_partial true len h1 h2 s1 s2 x y hx hy).2.2
+    (((bin_canonical_partial true len h1 s1 x hx).1).mp cx) (((bin_canonical_partial true len h2 s2 y hy).1).mp cy)
+
+example : storeWith false [] H (b "QQ==") = .ok ⟨[0x41], b "QQ=="⟩ ∧ storeWith false [] H (b "QR==") = .ok ⟨[0x41], b "QR=="⟩ ∧
     cmpEq ⟨[0x41], b "QQ=="⟩ ⟨[0x41], b "QR=="⟩ = true ∧ nodeEq ⟨[0x41], b "QQ=="⟩ ⟨[0x41], b "QR=="⟩ = false ∧
-    cmpEq ⟨[0x41], b "QQ=="⟩ ⟨[0x42], b "Qg=="⟩ = false := by decide +kernel
+    cmpEq ⟨[0x41], b "QQ=="⟩ ⟨[0x42], b "Qg=="⟩ = false ∧ storeWith true [] H (b "QR==") = storeWith true [] H (b "QQ==") := by decide +kernel
 
 /-! ## order -/
 
@@ -182,43 +226,61 @@ example : sort ⟨[0x41], b "QQ=="⟩ ⟨[0x41], b "QR=="⟩ = 0 ∧ sort ⟨[0x
 
 /-! ## LYB -/
 
-/-- `bin_lyb_roundtrip`: the LYB form of a stored value is its octet string; storing it from LYB gives a value with the same octets — an
-    equal value — whose canonical value is the base64 encoding of the octets (so it is the SAME value exactly when the original had zero
-    surplus bits), and whose octet count satisfies the `length` restriction. -/
-theorem bin_lyb_roundtrip (len : List (Int × Int)) (hints : Nat) (s : Bytes) (v : BVal) (h : store len hints s = .ok v) :
-    lyb v = v.data ∧ unlyb len (lyb v) = .ok ⟨v.data, encode v.data⟩ ∧ cmpEq v ⟨v.data, encode v.data⟩ = true ∧
-      (unlyb len (lyb v) = .ok v ↔ IsB64 v.canon v.data 0) ∧ validateRange (rangeIsUnsigned "binary") len (v.data.length : Nat) = true := by
-  refine ⟨rfl, rfl, (cmpEq_iff _ _).mpr rfl, ?_, ((store_ok_iff len hints s v).mp h).2.2.2.2⟩
-  rw [← (bin_canonical_partial len hints s v h).1]
-  unfold Bin.unlyb Bin.lyb Bin.canon
+/-- `bin_lyb_roundtrip` (all four variants): the LYB form of a stored value is its octet string; storing it from LYB gives a value with the
+    same octets — an equal value — whose canonical value is the base64 encoding of the octets (so it is the SAME value exactly when the
+    canonical text of the original had zero surplus bits: always, with the repair of F418), and whose octet count satisfies the `length`
+    restriction. -/
+theorem bin_lyb_roundtrip (r c : Bool) (len : List (Int × Int)) (hints : Nat) (s : Bytes) (v : BVal) (h : storeWith r len hints s = .ok v) :
+    lyb v = v.data ∧ unlybWith c len (lyb v) = .ok ⟨v.data, encode v.data⟩ ∧ cmpEq v ⟨v.data, encode v.data⟩ = true ∧
+      (unlybWith c len (lyb v) = .ok v ↔ IsB64 v.canon v.data 0) ∧ validateRange (rangeIsUnsigned "binary") len (v.data.length : Nat) = true := by
+  have hr := ((storeWith_ok_iff r len hints s v).mp h).2.choose_spec.2.2.2.2
+  have hu : unlybWith c len (lyb v) = .ok ⟨v.data, encode v.data⟩ := (unlybWith_ok_iff c len v.data _).mpr ⟨rfl, Or.inr hr⟩
+  refine ⟨rfl, hu, (cmpEq_iff _ _).mpr rfl, ?_, hr⟩
+  rw [← (bin_canonical_partial r len hints s v h).1, hu]
+  unfold Bin.canon
   cases v with
   | mk d c =>
     simp only [Except.ok.injEq, BVal.mk.injEq, true_and]
     exact eq_comm
 
-example : unlyb [] (lyb ⟨[0x41], b "QR=="⟩) = .ok ⟨[0x41], b "QQ=="⟩ ∧ unlyb [] (lyb ⟨[0x41], b "QQ=="⟩) = .ok ⟨[0x41], b "QQ=="⟩ := by decide +kernel
+example : unlybWith false [] (lyb ⟨[0x41], b "QR=="⟩) = .ok ⟨[0x41], b "QQ=="⟩ ∧ unlybWith true [] (lyb ⟨[0x41], b "QQ=="⟩) = .ok ⟨[0x41], b "QQ=="⟩ := by
+  decide +kernel
 
-/-- Full strength: a value stored from LYB satisfies the `length` restriction of its type.  False — the LYB branch of the store callback
-    returns before the restriction is looked at: 8 octets are a value of `type binary { length "2..4"; }`. -/
+/-- Full strength: a value stored from LYB satisfies the `length` restriction of its type.  False in the pinned tree — the LYB branch of the
+    store callback returns before the restriction is looked at: 8 octets are a value of `type binary { length "2..4"; }` (F420). -/
 theorem bin_lyb_length_checked_fails :
-    ¬ ∀ (len : List (Int × Int)) (octets : Bytes) (v : BVal), unlyb len octets = .ok v →
+    ¬ ∀ (len : List (Int × Int)) (octets : Bytes) (v : BVal), unlybWith false len octets = .ok v →
       validateRange (rangeIsUnsigned "binary") len (v.data.length : Nat) = true := by
   intro h
   exact absurd (h [(2, 4)] (b "ABCDEFGH") ⟨b "ABCDEFGH", encode (b "ABCDEFGH")⟩ rfl) (by decide +kernel)
 
-/-- …what does hold: every octet string is a LYB value, with its base64 encoding as the canonical value; and that canonical value is
-    accepted as text exactly when the size is inside the `length` parts. -/
-theorem bin_lyb_length_checked_partial (len : List (Int × Int)) (hints : Nat) (octets : Bytes) (hh : (checkHints hints "binary").isSome = true) :
-    unlyb len octets = .ok ⟨octets, encode octets⟩ ∧
-      (store len hints (encode octets) = .ok ⟨octets, encode octets⟩ ↔ validateRange (rangeIsUnsigned "binary") len (octets.length : Nat) = true) := by
+/-- `bin_lyb_length_checked_repaired`: with the repair an octet string is a LYB value ⇔ its size is inside the `length` parts. -/
+theorem bin_lyb_length_checked_repaired (len : List (Int × Int)) (octets : Bytes) (v : BVal) :
+    unlybWith true len octets = .ok v ↔ v = ⟨octets, encode octets⟩ ∧ validateRange (rangeIsUnsigned "binary") len (octets.length : Nat) = true := by
+  rw [unlybWith_ok_iff]
+  simp
+
+example : unlybWith true [(2, 4)] (b "ABCDEFGH") = .error .Length ∧ unlybWith true [(2, 4)] (b "ABC") = .ok ⟨b "ABC", b "QUJD"⟩ := by decide +kernel
+
+/-- …what holds in the pinned tree: every octet string is a LYB value, with its base64 encoding as the canonical value; and (both variants of
+    the text side) that canonical value is accepted as text exactly when the size is inside the `length` parts. -/
+theorem bin_lyb_length_checked_partial (r : Bool) (len : List (Int × Int)) (hints : Nat) (octets : Bytes) (hh : (checkHints hints "binary").isSome = true) :
+    unlybWith false len octets = .ok ⟨octets, encode octets⟩ ∧
+      (storeWith r len hints (encode octets) = .ok ⟨octets, encode octets⟩ ↔ validateRange (rangeIsUnsigned "binary") len (octets.length : Nat) = true) := by
   refine ⟨rfl, ?_⟩
   have he := validate_of_isB64 (encode_isB64 octets)
-  rw [store_ok_iff]
+  rw [storeWith_ok_iff]
   constructor
-  · intro h; exact h.2.2.2.2
-  · intro h; exact ⟨hh, stripNl_of_validate he, he, (decode_encode octets).symm, h⟩
+  · rintro ⟨_, t, _, _, _, _, h⟩; exact h
+  · intro h; exact ⟨hh, encode octets, stripNl_of_validate he, he, (decode_encode octets).symm, by cases r <;> rfl, h⟩
 
-example : (checkHints H "binary").isSome = true ∧ store [(2, 4)] H (encode (b "ABCDEFGH")) = .error .Length ∧
-    store [(2, 4)] H (encode (b "ABCD")) = .ok ⟨b "ABCD", b "QUJDRA=="⟩ := by decide +kernel
+example : (checkHints H "binary").isSome = true ∧ storeWith false [(2, 4)] H (encode (b "ABCDEFGH")) = .error .Length ∧
+    storeWith true [(2, 4)] H (encode (b "ABCD")) = .ok ⟨b "ABCD", b "QUJDRA=="⟩ := by decide +kernel
+
+/-! ## the model that is compared with the implementation -/
+
+/-- `bin_model_is_variant`: the store functions of the driver are the variants the switches of the translator select. -/
+theorem bin_model_is_variant (len : List (Int × Int)) (hints : Nat) (s : Bytes) :
+    store len hints s = storeWith Generated.binCanonReencoded len hints s ∧ unlyb len s = unlybWith Generated.binLybLengthChecked len s := ⟨rfl, rfl⟩
 
 end LyModel.Props.C03Bin
